@@ -383,3 +383,29 @@ def rotate_contact_scene(scene, quat, shift):
         scene["gravity"] = (R @ np.array(scene["gravity"])).tolist()
     scene["moved"] = True
     return scene
+
+
+def gen_arm_on_floor_scene(rng):
+    """A rigid arm on a revolute joint (horizontal axis) whose spherical foot rests on a plane at t0, driven by a motor
+    or a PD / PID controller on the joint: actuator, bilateral constraint and closed contact act on the same
+    coordinates."""
+    L = float(rng.uniform(0.5, 1.5))
+    rad = float(rng.uniform(0.05, 0.15))
+    m = float(rng.uniform(0.5, 3.0))
+    th = m * L**2 / 12.0
+    body = {"kind": "rigid", "m": m, "theta": [0.1 * th, th, th], "r": [L / 2, 0.0, 0.0], "p": [1.0, 0.0, 0.0, 0.0], "v": [0.0, 0.0, 0.0], "w": [0.0, 0.0, 0.0]}
+    scene = {"t0": 0.0, "bodies": [body], "frames": [], "joints": [], "tpis": [], "laws": [], "actuators": [], "forces": [], "contacts": []}
+    scene["joints"].append({"type": "revolute", "a": "origin", "b": ["body", 0], "axis": 1, "rJ": [0.0, 0.0, 0.0], "pJ": [1.0, 0.0, 0.0, 0.0], "angle0": 0.0})
+    scene["gravity"] = [0.0, 0.0, -9.81]
+    x = rng.random()
+    tau = float(rng.uniform(-1.5, 1.5) * m * 9.81 * L / 2)  # from pressing the foot down to lifting it off
+    if x < 0.5:
+        scene["actuators"].append({"type": "motor", "joint": 0, "tau": tau, "time": "const"})
+    elif x < 0.8:
+        scene["actuators"].append({"type": "pd", "joint": 0, "kp": float(rng.uniform(5, 40)), "kd": float(rng.uniform(0.1, 1)), "target": [float(rng.uniform(-0.5, 0.5)), 0.0]})
+    else:
+        scene["actuators"].append({"type": "pid", "joint": 0, "kp": float(rng.uniform(5, 40)), "ki": float(rng.uniform(1, 10)), "kd": float(rng.uniform(0.1, 1)), "target": [float(rng.uniform(-0.5, 0.5)), 0.0], "q0": float(rng.uniform(-0.2, 0.2))})
+    mu = float(rng.choice([0.0, 0.3, 0.8]))
+    scene["contacts"].append({"type": "s2p", "plane": {"r": [0.0, 0.0, -rad], "p": [1.0, 0.0, 0.0, 0.0]}, "body": 0, "radius": rad, "rB": [L / 2, 0.0, 0.0], "mu": mu, "eN": 0.0, "eF": 0.0})
+    scene["dof_estimate"] = 1
+    return scene
